@@ -1,10 +1,13 @@
 """Lock-step execution of the real code (Go harness) and the Lean model over a line protocol."""
 import os
+import select
 import subprocess
 import time
 
 
 class Proc:
+    TIMEOUT = 180   # seconds without a reply line: the process is killed and the reply is "hang"
+
     def __init__(self, argv, name, env=None):
         self.name = name
         self.argv = argv
@@ -18,6 +21,10 @@ class Proc:
         try:
             self.p.stdin.write(line + "\n")
             self.p.stdin.flush()
+            if not select.select([self.p.stdout], [], [], self.TIMEOUT)[0]:
+                self.dead = True
+                self.p.kill()
+                return "hang"
             r = self.p.stdout.readline()
         except (BrokenPipeError, OSError):
             r = ""
@@ -47,7 +54,7 @@ class Pair:
     CHOICE_KEYS = ("order=", "pick=", "sample=")
     # white-box listings the model does not mirror (they feed the property oracle only)
     IMPL_ONLY = ("wb.keys", "wb.frags", "c.scanall", "c.commands", "c.rawcmd", "c.sync", "c.add", "c.stop", "c.update",
-                 "c.balance", "bg.compact", "bg.janitor", "wb.stats")
+                 "c.balance", "bg.compact", "bg.janitor", "wb.stats", "wb.mergex")
 
     def __init__(self, drv, model, env=None):
         self.drv_path, self.model_path, self.env = drv, model, env
